@@ -25,6 +25,11 @@ fn eval_line(line: &str) -> String {
     let Ok(codec) = t.next() else { return "bad-op empty".into() };
     let Ok(q) = t.next() else { return "bad-op noquery".into() };
     let r = catch_unwind(AssertUnwindSafe(|| {
+        let save = t.i;
+        if let Some(r) = misc::special(codec, q, &mut t) {
+            return r;
+        }
+        t.i = save;
         with_codec!(codec, A => eval::query::<A>(q, &mut t), Err(eval::Fail::BadOp("codec".into())))
     }));
     match r {
